@@ -36,7 +36,8 @@ theorem nlt_upd (lg lg' : Log) (n : Nat) (i : Rid) (inbox : List Pkt) (pc pc' : 
     (ha' : a'.reqs = updReq x.p f a.reqs)
     (t : Tr lg lg' k) (hpc : ∀ p', remFor pc' p' = remFor pc p')
     (hact : ∀ pk grp, pc = .action pk grp → pc' = .action pk grp)
-    (hact2 : ∀ q', pc = .emit [.write none q'] → pc' = pc ∨ q'.id = x.p ∨ q'.id = k) (hwb' : wOK pc')
+    (hact2 : ∀ w q', (pc = .emit [.write w q'] ∨ pc = .emit [.link q'.id q'.id, .write w q']) →
+      pc' = pc ∨ q'.id = x.p ∨ q'.id = k) (hwb' : wOK pc')
     (hki : ∀ y ∈ inbox, y.id ≠ k)
     (hkr : ∀ y ∈ a.reqs, y.r = i → y.p ≠ x.p → k ∉ remFor pc y.p)
     (ho : ∀ id ∈ nlIdsT i { inbox := inbox, pc := pc } a, aget lg'.owner id = aget lg.owner id)
@@ -73,11 +74,11 @@ theorem nlt_upd (lg lg' : Log) (n : Nat) (i : Rid) (inbox : List Pkt) (pc pc' : 
   · intro y hy hyr hst
     rw [ha'] at hy
     rcases hcases y (nodup_p _ hnd) hy with ⟨h1, h2⟩ | ⟨z, h1, h2, h3⟩
-    · rcases h.nz y h1 hyr hst with e | ⟨pk, grp, e, e2⟩ | ⟨q', e, e2⟩
+    · rcases h.nz y h1 hyr hst with e | ⟨pk, grp, e, e2⟩ | ⟨w, q', e, e2⟩
       · left; rw [hpc]; exact e
       · exact Or.inr (Or.inl ⟨pk, grp, hact pk grp e, e2⟩)
-      · rcases hact2 q' e with e3 | e3 | e3
-        · exact Or.inr (Or.inr ⟨q', by rw [e3]; exact e, e2⟩)
+      · rcases hact2 w q' (by rw [e2]; exact e) with e3 | e3 | e3
+        · exact Or.inr (Or.inr ⟨w, q', by rw [e3]; exact e, e2⟩)
         · exact absurd (e2.symm.trans e3) h2
         · exact absurd (e2.symm.trans e3) (hoth y h1 h2 y.p (by simp [idsR]))
     · have hze : z = x := mem_unique a.reqs z x x.p hnd h1 hx (by simp [idsR, h2]) (by simp [idsR])
